@@ -450,7 +450,8 @@ class ExcelCompiler:
         cell_or_range = self.cell_map[address]
 
         old_value = cell_or_range.value
-        if old_value != value or type(old_value) is not type(value):
+        if old_value != value or (
+                isinstance(old_value, bool) != isinstance(value, bool)):
             # need to be able to 'set' an empty cell, set to not None
             cell_or_range.value = value
 
